@@ -22,6 +22,9 @@ SPEC = {
 }
 
 
+SPEC['post'] = [map_suites.cross_process_suite]
+
+
 def run(tier, seed, only=None):
     return mcheck.run_property('C18', tier, seed, only, SPEC)
 
